@@ -217,36 +217,48 @@ def run(chk):
                 if ks != full and ks != der:
                     chk.violation(r_sl, "%s:%s:%s" % (fname, key, shape[:40]), "%s::%s updates slots %s with `%s`; expected every slot of %s exactly once, in order" % (fname, key, ks, shape, "0..N or 1..N"), s["file"], s["l"])
     # ---- dynamic
-    r_dyn = chk.rule("C16.dyn", "DynamicEvaluation.hpp has the members of the generic implementation and the same loop bodies (modulo storage and run-time bounds)", floor=40)
+    r_dyn = chk.rule("C16.dyn", "DynamicEvaluation.hpp has the members of the generic implementation and - except for the 13 construction/size members that handle the run-time size - identical statement lists, declarations included", floor=45)
 
-    def loop_bodies(f):
+    DYN_DIFFERS = {
+        "checkDefined_() const": "iterates the dynamic storage explicitly",
+        "createBlank(const Evaluation &) static": "run-time size taken from the argument",
+        "createConstant(const Evaluation &,const RhsValueType &) static": "run-time size taken from the argument",
+        "createConstant(const RhsValueType &) static": "a dynamic evaluation cannot be created without a size: throws by design",
+        "createConstant(int,const RhsValueType &) static": "run-time size is the argument, nothing to compare it with",
+        "createConstantOne(const Evaluation &) static": "run-time size taken from the argument",
+        "createConstantZero(const Evaluation &) static": "run-time size taken from the argument",
+        "createVariable(const Evaluation &,const RhsValueType &,int) static": "run-time size taken from the argument",
+        "createVariable(const RhsValueType &,int) static": "a dynamic evaluation cannot be created without a size: throws by design",
+        "createVariable(int,const RhsValueType &,int) static": "run-time size is the argument",
+        "length_() const": "storage length is data_.size()",
+        "operator-() const": "result must be sized like *this before it is overwritten",
+        "size() const": "number of derivatives is data_.size() - 1",
+    }
+
+    def full(f):
         out = []
-        for n in walk(f["body"]):
-            if n["k"] == "For":
-                for t in inline_locals(stmt_list(n["body"])):
-                    out.append(render(t, None))
+        for s_ in stmt_list(f["body"]):
+            if s_["k"] == "For":
+                out.append("for(%s;%s;%s){%s}" % (render(s_.get("init"), None), render(s_.get("cond"), None), render(s_.get("inc"), None),
+                                                 " | ".join(render(t, None) for t in inline_locals(stmt_list(s_["body"])))))
+            else:
+                out.append(render(s_, None))
         return out
     for key in sorted(set(gen) | set(dyn)):
         g, d = gen.get(key), dyn.get(key)
-        if key.startswith(("size()", "valuepos_", "dstart_", "dend_", "length_", "checkDefined_")):
-            continue
         if g is None or d is None:
             chk.info(r_dyn, "member %s exists only in %s" % (key, "DynamicEvaluation.hpp" if g is None else "Evaluation.hpp"))
             continue
         programs += 1
-        a, b = loop_bodies(g), loop_bodies(d)
-        chk.instance(r_dyn, key, nontrivial=bool(a), sample=dict(member=key, loop_bodies=b[:2]))
+        a, b = full(g), full(d)
+        chk.instance(r_dyn, key, nontrivial=len(a) > 1, sample=dict(member=key, statements=b[:3], allowed_to_differ=key in DYN_DIFFERS))
+        if key in DYN_DIFFERS:
+            continue
         if a != b:
             disagreements += 1
-            chk.violation(r_dyn, key, "DynamicEvaluation::%s loops over `%s` but the generic implementation over `%s`" % (key, b, a), d["file"], d["l"])
-        # straight-line statements around the loops (value updates) must agree too
-        sa = [render(x, None) for x in stmt_list(g["body"]) if x["k"] not in ("For",)]
-        sb = [render(x, None) for x in stmt_list(d["body"]) if x["k"] not in ("For",)]
-        core_a = [t for t in sa if "data_[" in t]
-        core_b = [t for t in sb if "data_[" in t]
-        if core_a != core_b:
-            disagreements += 1
-            chk.violation(r_dyn, key + ":value", "DynamicEvaluation::%s updates `%s` outside its loops; the generic implementation `%s`" % (key, core_b, core_a), d["file"], d["l"])
+            i = next((i for i in range(min(len(a), len(b))) if a[i] != b[i]), min(len(a), len(b)))
+            chk.violation(r_dyn, key, "DynamicEvaluation::%s differs from the generic implementation at statement %d:\n      dynamic: %s\n      generic: %s" % (
+                key, i + 1, b[i] if i < len(b) else "<missing>", a[i] if i < len(a) else "<missing>"), d["file"], d["l"])
 
     # ---- C16.math
     r_m = chk.rule("C16.math", "every DenseAd math function sets each derivative slot from the same slot of its Evaluation arguments, exactly once, and the value from the scalar function of the same name", floor=20)
